@@ -14,6 +14,10 @@
 //   CR <errno> | EVW <so_error> <self 0|1> | EVE | TF | RUN | RUN1 | DOWN | HOLD | REL
 //   EVWY                                                     POLLOUT with SO_ERROR 0; a foreign thread runs ~TcpClient while the loop thread is
 //                                                            inside TcpClient::newConnection, just before it takes mutex_
+//   LOOPEND                                                  the loop has stopped for good (loop() returned) and the EventLoop goes out of scope AFTER
+//                                                            the TcpClient: `delete loop` = EventLoop::~EventLoop: pendingFunctors_ destroyed unrun,
+//                                                            ~TimerQueue deletes the timers unrun.  Rejected while the client exists, while user code
+//                                                            holds a TcpConnectionPtr, while a foreign ~TcpClient's addTimerInLoop hand-off is queued
 // end
 // One line per op:
 //   ok|rejected t=<virtual ms> ev=.. arm=.. k=<state>/<connect_>/<channel sock:registered>/<retryDelayMs_> tm=<ms until due,..>
@@ -279,6 +283,9 @@ static int runCase(const std::vector<string>& lines)
   TcpConnectionPtr& user = *new TcpConnectionPtr;
   std::map<string, Foreign>& foreign = *new std::map<string, Foreign>;     // "C", "S", "D", "Y"
   bool destroying = false;
+  bool loopGone = false;          // LOOPEND happened: `loop` is a dangling reference from then on
+  bool yHadConn = false;          // XYR: the snapshot of connection_ the foreign ~TcpClient took
+  int hackIdx = -1;               // position in pendingFunctors_ of the addTimerInLoop hand-off of a foreign ~TcpClient's runAfter, -1: none
   int64_t lastSeq = 0;
   Channel* chanPtr = NULL;
   int chanSock = -1;
@@ -353,13 +360,21 @@ static int runCase(const std::vector<string>& lines)
       {
         TcpClient* c = client;
         destroying = true;
+        yHadConn = static_cast<bool>(client->connection_);
         startForeign("Y", 2, [c]() { delete c; });     // lock 1 = the snapshot under mutex_, lock 2 = the first enqueue
       }
       else rejected = true;
     }
     else if (k == "XYD")
     {
-      if (destroying && foreign.count("Y")) { finishForeign("Y"); client = NULL; destroying = false; } else rejected = true;
+      if (destroying && foreign.count("Y"))
+      {
+        finishForeign("Y");
+        client = NULL;
+        destroying = false;
+        if (!yHadConn) hackIdx = static_cast<int>(loop.queueSize()) - 1;   // stop()'s stopInLoop, then runAfter's addTimerInLoop
+      }
+      else rejected = true;
     }
     else if (k == "CR") g_script.push_back(errnoOf(w[1]));
     else if (k == "EVW" || k == "EVE")
@@ -391,6 +406,20 @@ static int runCase(const std::vector<string>& lines)
       }
       else rejected = true;
     }
+    else if (k == "LOOPEND")
+    {
+      if (client == NULL && !destroying && !user && hackIdx < 0)
+      {
+        if (!loopGone)
+        {
+          loopGone = true;
+          delete &loop;      // on the loop's own thread, after the client: what scope exit does in `EventLoop loop; TcpClient client(&loop, ..);`
+        }
+      }
+      else rejected = true;
+    }
+    else if (loopGone && (k == "TF" || k == "RUN1")) rejected = true;      // no timer, no functor is left
+    else if (loopGone && k == "RUN") { for (size_t i = 0; i < g_conns.size(); ++i) g_conns[i].fresh = false; }
     else if (k == "TF")
     {
       TimerQueue* tq = loop.timerQueue_.get();
@@ -415,8 +444,10 @@ static int runCase(const std::vector<string>& lines)
         {
           functors.push_back(std::move(loop.pendingFunctors_.front()));
           loop.pendingFunctors_.erase(loop.pendingFunctors_.begin());
+          if (hackIdx >= 0) --hackIdx;
         }
       }
+      if (k == "RUN") hackIdx = -1;
       if (k == "RUN1" && functors.empty()) rejected = true;
       loop.callingPendingFunctors_ = true;
       for (size_t i = 0; i < functors.size(); ++i)
@@ -465,6 +496,7 @@ static int runCase(const std::vector<string>& lines)
     // ---- observation
     string evs, arms;
     for (size_t i = 0; i < g_events.size(); ++i) { if (!evs.empty()) evs += ","; evs += g_events[i]; }
+    if (!loopGone)
     {
       TimerQueue* tq = loop.timerQueue_.get();
       std::vector<std::pair<int64_t, int64_t> > fresh;   // (sequence, delay ms)
@@ -502,6 +534,7 @@ static int runCase(const std::vector<string>& lines)
       }
     }
     string tm;
+    if (!loopGone)
     {
       TimerQueue* tq = loop.timerQueue_.get();
       for (TimerQueue::TimerList::iterator it = tq->timers_.begin(); it != tq->timers_.end(); ++it)
@@ -542,7 +575,7 @@ static int runCase(const std::vector<string>& lines)
     }
     printf("%s t=%lld ev=%s arm=%s k=%s tm=%s pend=%zu socks=%s cl=%s cs=%s\n", rejected ? "rejected" : "ok",
            static_cast<long long>((g_now_us - kEpochUs) / 1000), evs.empty() ? "-" : evs.c_str(), arms.empty() ? "-" : arms.c_str(), kst.c_str(), tm.empty() ? "-" : tm.c_str(),
-           loop.queueSize(), socks.empty() ? "-" : socks.c_str(), cl.c_str(), cs.empty() ? "-" : cs.c_str());
+           loopGone ? static_cast<size_t>(0) : loop.queueSize(), socks.empty() ? "-" : socks.c_str(), cl.c_str(), cs.empty() ? "-" : cs.c_str());
     fflush(stdout);
   }
   fflush(stdout);
@@ -553,9 +586,12 @@ static int runCase(const std::vector<string>& lines)
     __real_close(g_socks[i].peer);
   }
   g_active = false;
-  if (EPollPoller* ep = dynamic_cast<EPollPoller*>(loop.poller_.get())) __real_close(ep->epollfd_);
-  __real_close(loop.wakeupFd_);
-  __real_close(loop.timerQueue_->timerfd_);
+  if (!loopGone)
+  {
+    if (EPollPoller* ep = dynamic_cast<EPollPoller*>(loop.poller_.get())) __real_close(ep->epollfd_);
+    __real_close(loop.wakeupFd_);
+    __real_close(loop.timerQueue_->timerfd_);
+  }
   return 0;
 }
 
